@@ -1,7 +1,8 @@
 """C08 - the national summary is bounded, ordered, and depends only on the contests.
 
  R1 typestate: every model attribute the summary reads (other than constructor settings) is written only at sites guarded
-    by `self._is_top_level_aggregate(aggregate)`, so finer aggregates computed later cannot overwrite it;
+    by `self._is_top_level_aggregate(aggregate)`, so finer aggregates computed later cannot overwrite it; that predicate has to
+    tell a district election from a statewide one (open known finding K2: it does not);
  R2 value sets (complete table): potential losses / gains are 0/1 vectors, losses only at predicted winners, gains only at
     predicted losers, in both correlation modes and with/without call and stop vectors; called contests are zero in both;
  R3 formula shape: lower = P - sum(w * losses), upper = P + sum(w * gains), each output = round(x + base, 2) with the same base;
@@ -99,6 +100,16 @@ def check(ctx):
     oktl = ("len(aggregate) == 1" in txt and "len(aggregate) == 2" in txt and "'postal_code' in aggregate" in txt and "'district' in aggregate" in txt)
     ctx.ob("C08.R1.toplevel", f"{tl.qualname}|definition", oktl, tl.where(),
            "top level = [postal_code] or [postal_code, district]" if oktl else f"top-level test changed: {txt[:160]}")
+
+    # which table is "the contests" depends on the kind of election: [postal_code, district] is the contest level of a district
+    # race but a finer aggregate of a statewide race (presidential ME / NE districts, a statewide office with a district table).
+    # A predicate that does not look at the election kind lets that finer table overwrite the summary's inputs.
+    uses_kind = any(isinstance(n, ast.Attribute) and isinstance(n.value, ast.Name) and n.value.id == "self" and n.attr == "district_election"
+                    for n in ast.walk(tl.node))
+    ctx.ob("C08.R1.toplevel-kind", f"{tl.qualname}|contest level depends on the kind of election", uses_kind, tl.where(),
+           "[postal_code, district] counts as the contest level only in a district election" if uses_kind
+           else "[postal_code, district] always counts as the contest level: in a statewide race the district table then overwrites the stored "
+                "contest margins, error matrices and call vectors, and calls are validated against district names")
 
     # ---- structure of the result ------------------------------------------------------------
     ret = s.ret()
